@@ -6,7 +6,9 @@ import (
 	"flag"
 	"fmt"
 	"os"
+	"runtime/debug"
 	"strconv"
+	"strings"
 
 	"verifharness/internal/impl"
 	"verifharness/internal/props"
@@ -49,6 +51,20 @@ func main() {
 	}
 	c := props.NewCtx(*prop, *tier, seed)
 	c.RunProofs()
-	chk(c)
+	func() {
+		// The harness calls a few cheap library functions in its own process (token counting, corpus
+		// preparation). If the LIBRARY panics there, that is a violation of totality, not a harness
+		// failure: report it instead of dying with exit status 2.
+		defer func() {
+			if r := recover(); r != nil {
+				stack := string(debug.Stack())
+				if !strings.Contains(stack, "github.com/vektah/gqlparser/v2/") && !strings.Contains(stack, "/repo/") {
+					panic(r) // a bug of the harness itself
+				}
+				c.Report("runtime", "library-panicked-inside-the-harness", fmt.Sprintf("panic: %v\n%s", r, stack), map[string]any{"panic": fmt.Sprint(r), "stack": stack})
+			}
+		}()
+		chk(c)
+	}()
 	os.Exit(c.Finish())
 }
